@@ -184,7 +184,20 @@ func c16Lemmas(rePath string) ([]lemma, error) {
 	suffix := fmt.Sprintf(`(re.union (str.to_re "/index.json") (str.to_re "/oci-layout") (str.to_re "/blobs") (str.to_re "/_uploads") (re.++ (str.to_re "/blobs/") %s) (re.++ (str.to_re "/blobs/") %s (str.to_re "/") %s) (re.++ (str.to_re "/_uploads/upload.") %s))`, alg, alg, hex, digits)
 	nativeSuffix := regexp.MustCompile(`^(/index\.json|/oci-layout|/blobs|/_uploads|/blobs/sha(256|384|512)|/blobs/sha(256|384|512)/[0-9a-f]+|/_uploads/upload\.[0-9]+)(/.*)?$`)
 	mem := func(re string) string { return "(assert (str.in_re w " + re + "))" }
+	// the repository grammar of the OCI distribution specification
+	const specGrammar = `^[a-z0-9]+((\.|_|__|-+)[a-z0-9]+)*(/[a-z0-9]+((\.|_|__|-+)[a-z0-9]+)*)*$`
+	spec, err := patternToSMT(specGrammar)
+	if err != nil {
+		return nil, err
+	}
+	nativeSpec := regexp.MustCompile(specGrammar)
 	ls := []lemma{
+		{ID: "L0", What: "every name the code routes is a repository name of the OCI distribution-spec grammar [a-z0-9]+((\\.|_|__|-+)[a-z0-9]+)*(/...)*: L(rePath) is included in L(spec)",
+			Vars: []string{"w"},
+			SMT:  mem(g) + "\n" + mem("(re.comp "+spec+")"),
+			Native: func(m map[string]string) bool {
+				return native.MatchString(m["w"]) && !nativeSpec.MatchString(m["w"])
+			}},
 		{ID: "L1a", What: "no name of the grammar has an empty, '.' or '..' component or a leading/trailing '/': filepath.Join(root,name) is root/name lexically",
 			Vars: []string{"w"},
 			SMT:  mem(g) + "\n" + mem("(re.union "+compRe("")+" "+compRe(".")+" "+compRe("..")+")"),
